@@ -10,6 +10,7 @@ src="/tmp/mut/$id/out/$v"
 # round 2 (variant C and later): the agent's deliverables are directly under /tmp/mut2/<Cxx>/out
 [ -f "$src/patch.diff" ] || src="/tmp/mut2/$id/out"
 [ -f "$src/patch.diff" ] || src="/tmp/mut3/$id/out"
+[ -f "$src/patch.diff" ] || src="/tmp/mut4/$id/out"
 [ -f "$src/patch.diff" ] || { echo "no patch for $id $v"; exit 2; }
 export GOFLAGS=-mod=mod GOPROXY=off
 wt=$(mktemp -d /tmp/seedwt.XXXXXX); rmdir "$wt"
